@@ -904,6 +904,7 @@ fn mxi_one<Ty: petgraph::EdgeType>(sc: &Value) -> Result<(Vec<String>, bool), ()
                     if old.is_some() != (r == 1) { diffs.push(format!("call {} update_edge({},{}) previous weight {:?}, model says present={}", i, a, b, old, r == 1)); }
                 }
                 "remove_edge" => { g.remove_edge(ix(a), ix(b)); }
+                "clear" => g.clear(),
                 _ => { g.remove_node(ix(a)); }
             }
         }
